@@ -12,12 +12,16 @@ name = f"mut-{pid}"
 dst = f"/tmp/v-{name}"
 subprocess.check_call([os.path.join(VERIF, "lib", "scratch.sh"), name], stdout=subprocess.DEVNULL)
 results = []
+last_path = None
 try:
     for m in muts:
         if flt and flt not in m["name"]:
             continue
         subprocess.check_call(["rsync", "-a", "--exclude", "target", "--exclude", ".git", "/repo/", f"{dst}/repo/"])
+        if last_path:
+            os.utime(last_path)  # rsync restored the old mtime: make cargo see the revert
         path = os.path.join(dst, "repo", m["file"])
+        last_path = path
         src = open(path).read()
         if src.count(m["old"]) < 1:
             results.append({"name": m["name"], "status": "pattern-not-found"})
